@@ -363,7 +363,7 @@ def judge(case, ibc, answers):
                 continue
             # the model counts in unary naturals: for the 1e6-frame lag the histogram is evaluated
             # at lag 1 and rescaled here (edges x lag, density / lag; cf. edges_multiples, bin_k_fraction)
-            mlag = 1 if lag > 1000 else lag
+            mlag = 1 if lag > 20 else lag
             ans = C.Reader(C.mrun([[802, len(d)] + [x for kc in d for x in kc] + [mlag]])[0])
             pts, dens, edges = ans.Zs(), ans.Qs(), ans.Zs()
             if mlag != lag:
